@@ -200,6 +200,8 @@ type session struct {
 	holds int
 	extra int          // extra bytes a handler adds to its result (reply larger than the request)
 	frames [2][][]byte // frames written by each endpoint, in order
+	regDone   bool      // the late protocol has been registered
+	injDone   bool      // every scripted frame has been injected
 	slowReply int       // endpoint whose first reply stalls mid-frame
 	shared bool         // every caller's context derives from ONE tagged parent context
 	nwr    [2]int       // Write calls seen per endpoint
@@ -527,6 +529,7 @@ type sessPlan struct {
 	stallRx int      // endpoint whose receive loop is held back for the first virtual seconds (-1: none)
 	shared  bool     // callers derive their contexts from one tagged parent
 	wfail   [2]int   // Write call that fails per endpoint (-1: none)
+	lateAfterReg bool // the caller of the late-registered method starts only after the registration has completed
 	slowReply int    // endpoint whose FIRST reply reaches the wire in two parts, seconds apart (-1: none)
 	lazyFin bool     // callers about to finish their records run only when nothing else can (a reply that arrives
 	                 // while a cancelled call is still winding up is then received before its record is finished)
@@ -621,6 +624,18 @@ func genPlan(g *prng, flavour string) sessPlan {
 			p.inject = append(p.inject, fmt.Sprintf("garbage@%d", ep))
 			p.closer = fmt.Sprintf("ext%d", ep)
 			p.closers = 1
+		}
+		if g.chance(1, 4) {
+			// the same name asked for BEFORE its protocol is registered (not found) and called AFTER the registration
+			// has completed, with little else going on: whatever the first look-up left behind must not answer the second
+			p.inject = []string{"nflate@1"}
+			if len(p.ops) > 1 {
+				p.ops = p.ops[:1]
+			}
+			p.ops = append(p.ops, sessOp{caller: len(p.ops), ep: 0, kind: "call", method: "lecho", nonce: 950})
+			p.lateAfterReg = true
+			p.closer, p.closers = "", 0
+			return p
 		}
 		for k, spec := range p.inject {
 			if strings.HasPrefix(spec, "nflate@") {
@@ -746,6 +761,9 @@ func runSession(g *prng, p sessPlan, script []string) (hist []string, trace []st
 		op := op
 		ctx, cancel := context.WithCancel(parent)
 		r.spawn(fmt.Sprintf("c%d", op.caller), func() { s.runOp(op, ctx); cancel() })
+		if p.lateAfterReg && op.method == "lecho" {
+			r.hold(fmt.Sprintf("c%d", op.caller), func(int) bool { return s.regDone })
+		}
 		if op.cancel {
 			r.spawn(fmt.Sprintf("x%d", op.caller), func() {
 				r.ev("cx %d", op.caller)
@@ -783,6 +801,10 @@ func runSession(g *prng, p sessPlan, script []string) (hist []string, trace []st
 	}
 	if len(p.inject) > 0 {
 		// protocols can be registered while the transport is running: must not be affected by earlier not-found frames
+		if p.lateAfterReg {
+			// the registration waits for the scripted not-found call to have been injected (it may still be in flight)
+			r.hold("reg", func(int) bool { return s.injDone })
+		}
 		r.spawn("reg", func() {
 			verifPoint("@reg.wait")
 			verifPoint("@reg.wait2")
@@ -791,6 +813,7 @@ func runSession(g *prng, p sessPlan, script []string) (hist []string, trace []st
 			_ = s.ep[ep].srv.Register(Protocol{Name: "late", Methods: map[string]ServeHandlerDescription{
 				"lecho": s.lateHandler(ep)}})
 			r.ev("rege %d", ep)
+			s.regDone = true
 		})
 		r.spawn("inj", func() {
 			enc := &altEnc{}
@@ -865,6 +888,7 @@ func runSession(g *prng, p sessPlan, script []string) (hist []string, trace []st
 				r.ev("inj %d %s", ep, kind)
 				s.ep[ep].conn.inject(fr.Bytes())
 			}
+			s.injDone = true
 		})
 	}
 	if p.observe {
